@@ -13,6 +13,7 @@ import (
 	"os"
 	"path/filepath"
 	"regexp"
+	"runtime"
 	"sort"
 	"strings"
 	"sync"
@@ -399,6 +400,34 @@ func Run(c *Ctx, chk Check, only int) int {
 	} else {
 		var next int64 = -1
 		var wg sync.WaitGroup
+		// checks that call the real packages in-process cannot interrupt a call that allocates
+		// without end: a watchdog turns a heap beyond 10 GB into a violation that names the cases
+		// in flight, instead of leaving the verdict to the kernel's OOM killer
+		var inFlight sync.Map
+		stopWatch := make(chan struct{})
+		defer close(stopWatch)
+		go func() {
+			var ms runtime.MemStats
+			for {
+				select {
+				case <-stopWatch:
+					return
+				case <-time.After(250 * time.Millisecond):
+				}
+				runtime.ReadMemStats(&ms)
+				if ms.HeapAlloc < 10<<30 {
+					continue
+				}
+				var cases []string
+				inFlight.Range(func(k, _ any) bool { cases = append(cases, fmt.Sprint(k)); return true })
+				sort.Strings(cases)
+				dir := filepath.Join(VerifRoot, "replays", c.ID, fmt.Sprintf("seed%d-%s-memory-exhaustion", c.Seed, c.Tier))
+				os.MkdirAll(dir, 0o755)
+				os.WriteFile(filepath.Join(dir, "why.txt"), []byte(fmt.Sprintf("the harness process grew beyond 10 GB of heap (%d MB) while the cases %s were calling the code under test in-process; the same tier and seed reproduce it (./run %s %s with VERIF_SEED=%d)\n", ms.HeapAlloc>>20, strings.Join(cases, ", "), c.ID, c.Tier, c.Seed)), 0o644)
+				fmt.Printf("VIOLATION property=%s replay=%s key=in-process-memory-exhaustion heap of %d MB while cases %s were in flight\n", c.ID, dir, ms.HeapAlloc>>20, strings.Join(cases, ", "))
+				os.Exit(1)
+			}
+		}()
 		workers := c.Workers
 		if workers > n {
 			workers = n
@@ -425,6 +454,8 @@ func Run(c *Ctx, chk Check, only int) int {
 								c.Count("harness_panics", 1)
 							}
 						}()
+						inFlight.Store(i, true)
+						defer inFlight.Delete(i)
 						chk.RunCase(c, i)
 					}()
 				}
